@@ -309,3 +309,15 @@ Proof.
   - intros x y. now apply onebyte_inverse.
   - intros y Hy. apply (onebyte_transparent _ _ _ Hk) in Hy. subst y. eauto.
 Qed.
+
+(* ================================================================== StreamWriter over the Gallina encoders *)
+Lemma ce_final_irrelevant e y : snd (ce_step e y false) = snd (ce_step e y true).
+Proof. reflexivity. Qed.
+
+Theorem sw_chunking_concrete enc c r :
+  collapse (c_sw_trace enc (c :: r)) = snd (enc_step cest ce_init ce_step (enc_init cest enc) (c ++ concat r) false).
+Proof. exact (sw_chunking_thm cest ce_init ce_step ce_concat ce_error r (enc_init cest enc) c). Qed.
+
+Theorem sw_decided_concrete enc t : decided enc t ->
+  snd (enc_step cest ce_init ce_step (enc_init cest enc) t false) = encode ce_shot t enc.
+Proof. exact (sw_decided_thm cest ce_init ce_step ce_shot ce_shot_spec enc t ce_final_irrelevant). Qed.
